@@ -93,10 +93,14 @@ class G:
                 compu = {"c": "TEXTTABLE", "rows": rows}
                 pt = "A_UNICODE2STRING"
                 self.features.add("compu:TEXTTABLE")
-        if dct["bt"] == "A_UINT32" and dct.get("enc") in (None, "NONE") and compu["c"] == "IDENTICAL" and self.chance(8):
+        if dct["bt"] == "A_UINT32" and dct.get("enc") in (None, "NONE") and compu["c"] == "IDENTICAL" and \
+                self.chance(40 if self.opts.get("condensed") else 8):
             full = (1 << dct["bl"]) - 1
             dct["mask"] = self.d(st.integers(1, full))
             self.features.add("bitmask")
+            if self.opts.get("condensed") and self.chance(50):
+                dct["cond"] = True
+                self.features.add("condensed-mask")
         return {"k": "simple", "id": self.nid("dop"), "dct": dct, "compu": compu, "pt": pt}
 
     def simple_value(self, dop) -> Any:
@@ -543,7 +547,7 @@ class G:
             case = self.pick(cases)
             content = self.values_for_struct(case["st"]) if case["st"] is not None else {}
             form = self.d(st.integers(0, 9))
-            if form < 7:
+            if form < 7 or self.opts.get("mux_by_name_only"):
                 val = [case["name"], content]
             else:
                 kv = self.d(st.integers(case["lo"], case["hi"]))
@@ -623,4 +627,13 @@ def message_case(draw, depth: int = 2, response_pct: int = 35, opts: Optional[di
     if response:
         need = getattr(g, "req_need", 0)
         request = draw(st.binary(min_size=need, max_size=need + 2))
-    return {"msg": msg, "values": values, "request": request, "features": sorted(g.features)}
+    # alternative values for the top-level VALUE parameters with static simple DOPs (C08 free-parameter clause)
+    alt = {}
+    if (opts or {}).get("alt"):
+        for p in params:
+            if p["pk"] == "value" and p["dop"]["k"] == "simple" and p["dop"]["dct"]["t"] == "std":
+                alt[p["name"]] = g.value_for_dop(p["dop"])
+    out = {"msg": msg, "values": values, "request": request, "features": sorted(g.features)}
+    if alt:
+        out["alt"] = alt
+    return out
